@@ -143,7 +143,7 @@ class AaAnswer(Aa):
     framed_mtu: int
     framed_protocol: int
     framed_routing: int
-    login_ip_host: list[str]
+    login_ip_host: list[bytes]
     login_ipv6_host: list[bytes]
     login_lat_group: bytes
     login_lat_node: bytes
@@ -298,7 +298,7 @@ class AaRequest(Aa):
     arap_password: bytes
     arap_security: int
     arap_security_data: list[bytes]
-    login_ip_host: list[str]
+    login_ip_host: list[bytes]
     login_ipv6_host: list[bytes]
     login_lat_group: bytes
     login_lat_node: bytes
